@@ -9,7 +9,7 @@ use crate::optree::*;
 pub const INFO: CheckInfo = CheckInfo {
     prop: "C06",
     level: "model_checking",
-    rule: "explicit enumeration of ALL call sequences up to a depth over the alphabet {deflate(6 flush values x {300-byte piece, 1 byte, no input} x {ample, 1, 5 bytes of room}), deflateParams (2 targets), deflateTune, deflatePrime ((3,5),(16,0xffff),(32,-1),(33,0),(-1,0)), deflateSetDictionary (0,3,600 bytes), deflateSetHeader (small / 600-byte name), deflatePending, deflateBound, deflateReset, deflateResetKeep, deflateCopy (continue on the copy / end the copy), deflateGetDictionary, deflateEnd} after deflateInit2 over a lattice of legal configurations (and illegal ones, which must be rejected cleanly), each sequence finished by the default tail 'Finish with fresh 1-/64-byte rooms until stream end'; the same through the safe wrappers (Deflate::new_with_config / compress / set_dictionary / set_level / reset, compress_slice) under catch_unwind; plus long repetitions of single operations (prime, flush, params) and C01's schedule families re-run with guard pages and invariants. Oracle: no signal/panic (attributed by the explorer), documented status, cursors in bounds, hook-H3 structural invariants after every call, progress: the Finish tail reaches stream end within the call cap, a buffer-full status is never followed by a fatal one. States/transitions: abstract encoder states (H3).",
+    rule: "explicit enumeration of ALL call sequences up to a depth over the alphabet {deflate(6 flush values x {300-byte piece, 1 byte, no input} x {ample, 1, 5 bytes of room}), deflateParams (2 targets), deflateTune, deflatePrime ((3,5),(16,0xffff),(32,-1),(33,0),(-1,0)), deflateSetDictionary (0,3,600 bytes), deflateSetHeader (small / 600-byte name), deflatePending, deflateBound, deflateReset, deflateResetKeep, deflateCopy (continue on the copy / end the copy), deflateGetDictionary, deflateEnd} after deflateInit2 over a lattice of legal configurations (and illegal ones, which must be rejected cleanly), each sequence finished by the default tail 'Finish with fresh 1-/64-byte rooms until stream end'; the same through the safe wrappers (Deflate::new_with_config / compress / set_dictionary / set_level / reset, compress_slice) under catch_unwind; plus long repetitions of single operations (prime, flush, params) and C01's schedule families re-run with guard pages and invariants. Oracle: no signal/panic (attributed by the explorer), documented status, cursors in bounds, hook-H3 structural invariants after every call, progress: the Finish tail reaches stream end within the call cap, a buffer-full status is never followed by a fatal one. Family abandon-reset-reuse (shared with C14): a stream abandoned after one deflate(Z_NO_FLUSH) of n bytes for every n <= 700 at the lazy levels (lattice elsewhere) x 9 levels x 5 settings x 3 data sets, deflateReset, next stream. States/transitions: abstract encoder states (H3).",
     assumptions: &["argument values outside the enumerated domains and sequences deeper than the bound are not covered", "hook H3 is read-only"],
     bound_quick: "depth 3 over 47 operations x 10 legal configurations; depth 1 on 14 illegal configurations; Rust wrapper trees depth 3; repetitions up to 400; C01 shape family with guards (stride 9)",
     bound_thorough: "depth 4 over a 30-operation alphabet and depth 3 over the full one; repetitions up to 2000; C01 families stride 1",
@@ -171,6 +171,8 @@ fn rust_wrappers(ctx: &mut Ctx, env: &OpEnv) {
 pub fn run(ctx: &mut Ctx) {
     let quick = ctx.quick();
     let env = OpEnv::new();
+    // (0) a stream abandoned after n bytes for every n, reset and reused (shared with C14): no call may panic
+    crate::checks::c14::deflate_abandon_reset(ctx, &crate::machine::MEnv::new(), "abandon-reset-reuse");
     // (1) op trees on the C API
     let full = alphabet(true);
     let small = alphabet(false);
